@@ -106,6 +106,22 @@ Definition dynrealm (id : bytes) : option bytes :=
   | Some r => if forallb realm_char_ok r then Some r else None
   end.
 
+(* findserver on a realm block whose server is a dynamic placeholder: already discovered sub-realms
+   are consulted first (id2realm recursion), otherwise a new one is created for the sanitised realm.
+   State: names of the sub-realms created so far, in order.  Result: the lookup argument of the
+   server the request is handed to, if any. *)
+Definition dyn_step (subs : list bytes) (id : bytes) : list bytes * option bytes :=
+  if existsb (N.eqb 0) id then (subs, None)
+  else
+    match find (fun n => match realm_matches n id with Some true => true | _ => false end) subs with
+    | Some n => (subs, Some n)
+    | None =>
+        match dynrealm id with
+        | Some r => (subs ++ [r], Some r)
+        | None => (subs, None)
+        end
+    end.
+
 (* dynamicconfig: the SRV query name for "srv:<prefix>" commands; naptr: queries the argument itself *)
 Definition srv_query (command arg : bytes) : bytes :=
   let prefix := skipn 4 command in
